@@ -174,7 +174,10 @@ pub fn run(ctx: &mut Ctx) {
     {
         use trusttunnel::settings::*;
         use trusttunnel::verif::{vlive, vservice};
-        let kinds: [(&str, bool); 10] = [
+        let kinds: [(&str, bool); 11] = [
+            // a speedtest session in the middle of a 100 MB download to a client that has stopped reading: its wind-down
+            // (flush and close) cannot finish until the client goes away - completion() has to wait for that
+            ("speedtest_busy", false),
             // the listeners themselves (`Core::listen`, without a metrics listener that would hold a guard of its own)
             ("listeners", false),
             ("tunnel", false),
@@ -209,7 +212,7 @@ pub fn run(ctx: &mut Ctx) {
                 .build()
                 .unwrap();
             let core = std::sync::Arc::new(trusttunnel::core::Core::new(b.build().unwrap(), None, hosts, shutdown.clone()).unwrap());
-            let label = format!("{}{}", kind, if kind == "metrics" || kind == "none" || kind == "listeners" { "" } else if h2 { "/h2" } else { "/h1" });
+            let label = format!("{}{}", kind, if kind == "metrics" || kind == "none" || kind == "listeners" || kind == "speedtest_busy" { "" } else if h2 { "/h2" } else { "/h1" });
             let rt = tokio::runtime::Builder::new_current_thread().enable_all().start_paused(true).build().unwrap();
             let verdict: Result<(), String> = rt.block_on(async {
                 use std::time::Duration;
@@ -217,6 +220,7 @@ pub fn run(ctx: &mut Ctx) {
                 let mut keep_h1 = None;
                 let mut keep_h2 = None;
                 let mut keep_svc = None;
+                let mut ran_busy = false;
                 let task: Option<tokio::task::JoinHandle<()>> = match kind {
                     "tunnel" if h2 => {
                         keep_h2 = vlive::open_h2(&core, "localhost").await;
@@ -234,6 +238,15 @@ pub fn run(ctx: &mut Ctx) {
                         }))
                     }
                     "none" => None,
+                    "speedtest_busy" => match vservice::spawn(&core, "speedtest", false) {
+                        Some(mut s) => {
+                            use tokio::io::AsyncWriteExt;
+                            let _ = s.client.write_all(b"GET /100mb.bin HTTP/1.1\r\nHost: speed.test\r\n\r\n").await;
+                            keep_svc = Some(s.client);
+                            Some(s.task)
+                        }
+                        None => return Err("could not start the session".to_string()),
+                    },
                     k => match vservice::spawn(&core, k, h2) {
                         Some(s) => {
                             keep_svc = Some(s.client);
@@ -264,6 +277,28 @@ pub fn run(ctx: &mut Ctx) {
                     _ => {}
                 }
                 shutdown.lock().unwrap().submit();
+                // never earlier: while the participant is still winding down, completion() stays pending
+                {
+                    let sd = shutdown.clone();
+                    let during = tokio::time::timeout(Duration::from_millis(500), async move {
+                        #[allow(clippy::await_holding_lock)]
+                        sd.lock().unwrap().completion().await
+                    })
+                    .await;
+                    if during.is_ok() {
+                        // (the task that held the guard is given a moment to be seen as finished)
+                        tokio::time::sleep(Duration::from_millis(50)).await;
+                        if alive(&task, &keep_h1, &keep_h2) {
+                            return Err("completion() returned while the participant was still winding down (its task had not finished)".to_string());
+                        }
+                    } else if kind == "speedtest_busy" {
+                        ran_busy = true;
+                    }
+                }
+                if kind == "speedtest_busy" {
+                    // the client goes away: the wind-down can end now
+                    drop(keep_svc.take());
+                }
                 let t0 = tokio::time::Instant::now();
                 while alive(&task, &keep_h1, &keep_h2) {
                     tokio::time::sleep(Duration::from_millis(100)).await;
@@ -281,6 +316,7 @@ pub fn run(ctx: &mut Ctx) {
                 if done.is_err() {
                     return Err("completion() still pending 10 s after the participant ended".to_string());
                 }
+                let _ = ran_busy;
                 if kind == "listeners" && std::net::TcpStream::connect_timeout(&([127, 0, 0, 1], listen_port).into(), Duration::from_millis(300)).is_ok() {
                     return Err("completion() returned while the endpoint was still accepting TCP connections".to_string());
                 }
